@@ -640,25 +640,31 @@ type regressCase struct {
 func TestRegress(t *testing.T) {
 	rec := ev.Get()
 	dir := t.TempDir()
-	p := func(name string) string { return filepath.Join(dir, name) }
+	// relative paths are resolved in this run's temp directory (so that a replay file stays valid)
+	resolve := func(c fc.Case) fc.Case {
+		if !filepath.IsAbs(c.Path) {
+			c.Path = filepath.Join(dir, c.Path)
+		}
+		return c
+	}
 	cases := []regressCase{
 		// shrunk by rapid: first flush fails in the first of two channel batches
-		{"stl-fsize0-257", fc.Case{Sink: "stl", Renderer: "scripted", N: 257, Chunk: 1, Path: p("a.stl"), Fsize: 0, Fault: "fsize:0"}, 60},
+		{"stl-fsize0-257", fc.Case{Sink: "stl", Renderer: "scripted", N: 257, Chunk: 1, Path: "a.stl", Fsize: 0, Fault: "fsize:0"}, 60},
 		{"stl-devfull-5000", fc.Case{Sink: "stl", Renderer: "scripted", N: 5000, Chunk: 1, Path: "/dev/full", Fsize: -1, Fault: "dev-full"}, 60},
-		{"stl-fsize50-1000", fc.Case{Sink: "stl", Renderer: "scripted", N: 1000, Chunk: 1, Path: p("b.stl"), Fsize: 50, Fault: "fsize:<84"}, 60},
-		{"stl-fsize84-1000", fc.Case{Sink: "stl", Renderer: "scripted", N: 1000, Chunk: 1, Path: p("c.stl"), Fsize: 84, Fault: "fsize:84+-1"}, 60},
-		{"stl-fsize5000-1000", fc.Case{Sink: "stl", Renderer: "scripted", N: 1000, Chunk: 1, Path: p("d.stl"), Fsize: 5000, Fault: "fsize:uniform"}, 60},
-		{"stl-mco-sphere-fsize4096", fc.Case{Sink: "stl", Renderer: "mco", Shape: "sphere", Cells: 16, Path: p("e.stl"), Fsize: 4096, Fault: "fsize:flush-boundary+-1"}, 60},
+		{"stl-fsize50-1000", fc.Case{Sink: "stl", Renderer: "scripted", N: 1000, Chunk: 1, Path: "b.stl", Fsize: 50, Fault: "fsize:<84"}, 60},
+		{"stl-fsize84-1000", fc.Case{Sink: "stl", Renderer: "scripted", N: 1000, Chunk: 1, Path: "c.stl", Fsize: 84, Fault: "fsize:84+-1"}, 60},
+		{"stl-fsize5000-1000", fc.Case{Sink: "stl", Renderer: "scripted", N: 1000, Chunk: 1, Path: "d.stl", Fsize: 5000, Fault: "fsize:uniform"}, 60},
+		{"stl-mco-sphere-fsize4096", fc.Case{Sink: "stl", Renderer: "mco", Shape: "sphere", Cells: 16, Path: "e.stl", Fsize: 4096, Fault: "fsize:flush-boundary+-1"}, 60},
 		{"stl-mcu-sphere-devfull", fc.Case{Sink: "stl", Renderer: "mcu", Shape: "sphere", Cells: 16, Path: "/dev/full", Fsize: -1, Fault: "dev-full"}, 60},
 		// same hang with the runtime's deadlock detector defeated: decided by deadline + SIGQUIT dump
-		{"stl-fsize4096-1000-keepalive", fc.Case{Sink: "stl", Renderer: "scripted", N: 1000, Chunk: 1, Path: p("f.stl"), Fsize: 4096, Keep: true, Fault: "fsize:flush-boundary+-1"}, 10},
+		{"stl-fsize4096-1000-keepalive", fc.Case{Sink: "stl", Renderer: "scripted", N: 1000, Chunk: 1, Path: "f.stl", Fsize: 4096, Keep: true, Fault: "fsize:flush-boundary+-1"}, 10},
 		// controls that return on the pinned tree
 		{"stl-devfull-50", fc.Case{Sink: "stl", Renderer: "scripted", N: 50, Chunk: 1, Path: "/dev/full", Fsize: -1, Fault: "dev-full"}, 60},
-		{"stl-missing-dir", fc.Case{Sink: "stl", Renderer: "scripted", N: 1000, Chunk: 1, Path: p("missing/a.stl"), Fsize: -1, Fault: "missing-dir"}, 60},
-		{"svg-missing-dir", fc.Case{Sink: "svg", Renderer: "scripted", N: 300, Chunk: 1, Path: p("missing/a.svg"), Fsize: -1, Fault: "missing-dir"}, 60},
-		{"svg-missing-dir-empty", fc.Case{Sink: "svg", Renderer: "scripted", N: 0, Chunk: 1, Path: p("missing/b.svg"), Fsize: -1, Fault: "missing-dir"}, 60},
-		{"3mf-fsize0", fc.Case{Sink: "3mf", Renderer: "scripted", N: 300, Chunk: 1, Path: p("a.3mf"), Fsize: 0, Fault: "fsize:0"}, 60},
-		{"dxf-fsize4096", fc.Case{Sink: "dxf", Renderer: "scripted", N: 300, Chunk: 1, Path: p("a.dxf"), Fsize: 4096, Fault: "fsize:flush-boundary+-1"}, 60},
+		{"stl-missing-dir", fc.Case{Sink: "stl", Renderer: "scripted", N: 1000, Chunk: 1, Path: "missing/a.stl", Fsize: -1, Fault: "missing-dir"}, 60},
+		{"svg-missing-dir", fc.Case{Sink: "svg", Renderer: "scripted", N: 300, Chunk: 1, Path: "missing/a.svg", Fsize: -1, Fault: "missing-dir"}, 60},
+		{"svg-missing-dir-empty", fc.Case{Sink: "svg", Renderer: "scripted", N: 0, Chunk: 1, Path: "missing/b.svg", Fsize: -1, Fault: "missing-dir"}, 60},
+		{"3mf-fsize0", fc.Case{Sink: "3mf", Renderer: "scripted", N: 300, Chunk: 1, Path: "a.3mf", Fsize: 0, Fault: "fsize:0"}, 60},
+		{"dxf-fsize4096", fc.Case{Sink: "dxf", Renderer: "scripted", N: 300, Chunk: 1, Path: "a.dxf", Fsize: 4096, Fault: "fsize:flush-boundary+-1"}, 60},
 	}
 	var rc regressCase
 	if ev.LoadReplay("TestRegress", &rc) {
@@ -668,21 +674,24 @@ func TestRegress(t *testing.T) {
 		if c.Name == "goroutines" {
 			continue
 		}
-		d := time.Duration(c.Deadline) * time.Second
-		if d <= 0 {
-			d = childDeadline
-		}
-		o := runChild(c.Case, d)
-		rec.Case(true, ev.Key("regress", c.Name), "regress", "regress:outcome="+o.Kind.String())
-		switch o.Kind {
-		case outReturned:
-		case outInconclusive:
-			inconclusive(c.Case, o)
-		default:
-			rec.FailCase(t, "TestRegress", violationKey(c.Case, o), c,
-				"%s: %s(%s) fault %s: child did not print 'returned' [%s]: %s\nchild stderr: %s",
-				c.Name, sinkAPI(c.Case.Sink), describe(c.Case), c.Case.Fault, o.Kind, o.Where, head(o.Stderr, 6))
-		}
+		// one subtest per case: a failing case does not hide the following ones
+		t.Run(c.Name, func(t *testing.T) {
+			d := time.Duration(c.Deadline) * time.Second
+			if d <= 0 {
+				d = childDeadline
+			}
+			o := runChild(resolve(c.Case), d)
+			rec.Case(true, ev.Key("regress", c.Name), "regress", "regress:outcome="+o.Kind.String())
+			switch o.Kind {
+			case outReturned:
+			case outInconclusive:
+				inconclusive(c.Case, o)
+			default:
+				rec.FailCase(t, "TestRegress", violationKey(c.Case, o), c,
+					"%s: %s(%s) fault %s: child did not print 'returned' [%s]: %s\nchild stderr: %s",
+					c.Name, sinkAPI(c.Case.Sink), describe(c.Case), c.Case.Fault, o.Kind, o.Where, head(o.Stderr, 6))
+			}
+		})
 	}
 	if rc.Name != "" && rc.Name != "goroutines" {
 		return
@@ -693,28 +702,33 @@ func TestRegress(t *testing.T) {
 	if err != nil {
 		t.Fatal(err)
 	}
-	var counts []int
-	for i := 0; i < 4; i++ {
-		render.NewMarchingCubesUniform(4).Render(s, discard3{})
-		counts = append(counts, quiesced())
-	}
-	rec.Case(true, ev.Key("regress", "goroutines"), "regress")
-	for i := 1; i < len(counts); i++ {
-		if counts[i] > counts[0] {
-			rec.FailCase(t, "TestRegress", "MarchingCubesUniform:goroutines-grow-per-render", regressCase{Name: "goroutines"},
-				"goroutines after 1..4 MarchingCubesUniform(4).Render(sphere) calls: %v (must not exceed the count after the first render); by creator: %s", counts, creators())
+	t.Run("goroutines-mcu", func(t *testing.T) {
+		var counts []int
+		for i := 0; i < 4; i++ {
+			render.NewMarchingCubesUniform(4).Render(s, discard3{})
+			counts = append(counts, quiesced())
 		}
-	}
+		rec.Case(true, ev.Key("regress", "goroutines-mcu"), "regress")
+		for i := 1; i < len(counts); i++ {
+			if counts[i] > counts[0] {
+				rec.FailCase(t, "TestRegress", "MarchingCubesUniform:goroutines-grow-per-render", regressCase{Name: "goroutines"},
+					"goroutines after 1..4 MarchingCubesUniform(4).Render(sphere) calls: %v (must not exceed the count after the first render); by creator: %s", counts, creators())
+			}
+		}
+	})
 	// the same through the public sinks with a scripted renderer: the count is the sink's
-	counts = counts[:0]
-	for i := 0; i < 4; i++ {
-		quiet(func() { fc.Run(fc.Case{Sink: "tri", Renderer: "scripted", N: 300, Chunk: 1}) })
-		counts = append(counts, quiesced())
-	}
-	for i := 1; i < len(counts); i++ {
-		if counts[i] > counts[0] {
-			rec.FailCase(t, "TestRegress", "ToTriangles:goroutines-grow-per-render", regressCase{Name: "goroutines"},
-				"goroutines after 1..4 ToTriangles(scripted 300) calls: %v; by creator: %s", counts, creators())
+	t.Run("goroutines-totriangles", func(t *testing.T) {
+		var counts []int
+		for i := 0; i < 4; i++ {
+			quiet(func() { fc.Run(fc.Case{Sink: "tri", Renderer: "scripted", N: 300, Chunk: 1}) })
+			counts = append(counts, quiesced())
 		}
-	}
+		rec.Case(true, ev.Key("regress", "goroutines-totriangles"), "regress")
+		for i := 1; i < len(counts); i++ {
+			if counts[i] > counts[0] {
+				rec.FailCase(t, "TestRegress", "ToTriangles:goroutines-grow-per-render", regressCase{Name: "goroutines"},
+					"goroutines after 1..4 ToTriangles(scripted 300) calls: %v; by creator: %s", counts, creators())
+			}
+		}
+	})
 }
